@@ -200,20 +200,21 @@ Definition uc_file (uc : list (ukey * ccontent)) (u s n t : str) : ccontent :=
 (* the version that the chain file of user tag t gives for flavor f *)
 Definition uc_tag (uc : list (ukey * ccontent)) (u s n t f : str) : option str := alookup f (uc_file uc u s n t).
 
-(* the chain files of user u for product n of stack s, as (tag, content) *)
-Definition uc_of (uc : list (ukey * ccontent)) (u s n : str) : list (str * ccontent) :=
+(* the chain files of user u for product n of stack s: their tag names (candidates come from the file
+   names, values from the lookups above) *)
+Definition uc_tags (uc : list (ukey * ccontent)) (u s n : str) : list str :=
   flat_map (fun e : ukey * ccontent =>
     let '(u', s', n', t) := fst e in
-    if str_eqb u' u && str_eqb s' s && str_eqb n' n then [(t, snd e)] else []) uc.
+    if str_eqb u' u && str_eqb s' s && str_eqb n' n then [t] else []) uc.
 
 (* Database.findTags restricted to the tag directory: the user tags whose entry for f is v *)
 Definition utags_on (uc : list (ukey * ccontent)) (u s n v f : str) : list str :=
-  flat_map (fun tc : str * ccontent => if opt_str_eqb (alookup f (snd tc)) v then [fst tc] else []) (uc_of uc u s n).
+  filter (fun t => opt_str_eqb (uc_tag uc u s n t f) v) (uc_tags uc u s n).
 
 (* is some file of the tag directory of user u for product n of stack s newer than tau *)
 Definition unewer_n (uc : list (ukey * ccontent)) (st : list (rkey * nat)) (u s n : str) (tau : nat) : bool :=
   (tau <? stamp_of st (RUDir u s n))
-  || existsb (fun tc : str * ccontent => tau <? stamp_of st (RUChain u s (n, fst tc))) (uc_of uc u s n).
+  || existsb (fun t => tau <? stamp_of st (RUChain u s (n, t))) (uc_tags uc u s n).
 
 (* Database(ups_db).isNewerThan(tau, tag directory): the products of the stack, looked up there *)
 Definition unewer_than (w : world) (u s : str) (tau : nat) : bool :=
@@ -362,11 +363,11 @@ Definition rebuild_utags (d : db) (uc : list (ukey * ccontent)) (utd : option st
   match utd with
   | None => []
   | Some u =>
-      flat_map (fun tc : str * ccontent =>
-        match alookup f (snd tc) with
-        | Some v => if is_some (db_decl d s n v f) then [(fst tc, v)] else []
+      flat_map (fun t =>
+        match uc_tag uc u s n t f with
+        | Some v => if is_some (db_decl d s n v f) then [(t, v)] else []
         | None => []
-        end) (uc_of uc u s n)
+        end) (uc_tags uc u s n)
   end.
 
 Definition rebuild_family (d : db) (uc : list (ukey * ccontent)) (utd : option str) (s f n : str) : family :=
@@ -407,9 +408,16 @@ Definition set_utag (lk : amap fdata) (f n t v : str) : amap fdata :=
       end
   end.
 
+(* the assignments of the chain files of product n: (tag, flavor) *)
+Definition utag_entries (uc : list (ukey * ccontent)) (u s n : str) : list (str * str) :=
+  flat_map (fun t => map (fun f => (t, f)) (akeys (uc_file uc u s n t))) (uc_tags uc u s n).
+
 Definition load_utags_n (uc : list (ukey * ccontent)) (u s n : str) (lk : amap fdata) : amap fdata :=
-  fold_left (fun lk (tc : str * ccontent) =>
-    fold_left (fun lk (fv : str * str) => set_utag lk (fst fv) n (fst tc) (snd fv)) (snd tc) lk) (uc_of uc u s n) lk.
+  fold_left (fun lk (tf : str * str) =>
+    match uc_tag uc u s n (fst tf) (snd tf) with
+    | Some v => set_utag lk (snd tf) n (fst tf) v
+    | None => lk
+    end) (utag_entries uc u s n) lk.
 
 Definition load_user_tags (d : db) (uc : list (ukey * ccontent)) (utd : option str) (s : str) (ps : pstack) : pstack :=
   match utd with
@@ -921,10 +929,12 @@ Definition clock_strict (tick : nat -> nat) : Prop := forall c, c < tick c.
 (* the worlds that histories produce: any number of processes of any users and flavors, one after
    the other, each with any operations (user tags included), dying or not at any of the modelled
    points, and cache files deleted at any moment; EUPS_PATH names each stack once; no user's
-   data directory is a stack's ups_db *)
+   data directory is a stack's ups_db; an administrator's instance only loads (the command line
+   offers asAdmin to eups admin buildCache and clearCache only) *)
 Inductive reachable (tick : nat -> nat) (vr : variant) : world -> Prop :=
 | R_init path : NoDup path -> reachable tick vr (init_world path)
-| R_proc w p : p_user p <> upsdb -> reachable tick vr w -> reachable tick vr (run_proc tick vr w p)
+| R_proc w p : p_user p <> upsdb -> (p_admin p = true -> p_ops p = []) ->
+    reachable tick vr w -> reachable tick vr (run_proc tick vr w p)
 | R_del w loc s fl : reachable tick vr w -> reachable tick vr (delete_cache w loc s fl).
 
 (* does fromCache believe the cache files of directory loc for stack s (the outcome of _tryCache) *)
